@@ -11,17 +11,30 @@
 (* differentiating never raises, "tg" entries get the (non-zero) gradient, *)
 (* "tu" entries zero or none, everything else none.  The position of the   *)
 (* entries must not matter.                                                *)
+(* Neither must their shapes: in layout "shapes" the three positions hold  *)
+(* tensors of shapes (), (2,) and (1,2), and a functional with two         *)
+(* parameter lists (mcquad: fparams for the integrand, pparams for the     *)
+(* density) gets as second list separate tensors whose kinds and shapes    *)
+(* are the first list's rotated by one position, so that no entry of one   *)
+(* list can stand in for the entry of the other at the same index.  Every  *)
+(* gradient has the shape of its own parameter.  In layout "scalars" all   *)
+(* entries are 0-dimensional and both lists are the same objects.          *)
 (***************************************************************************)
 EXTENDS Naturals, Sequences, TLC
 CONSTANTS Functionals, Len3
 Kinds == {"tg", "tu", "tn", "num"}
-VARIABLES f, ks, pred
-vars == <<f, ks, pred>>
+Layouts == {"scalars", "shapes"}
+TwoLists == {"mcquad"}
+Rot(s) == [i \in 1..Len3 |-> s[(i % Len3) + 1]]
+VARIABLES f, ks, layout, pred
+vars == <<f, ks, layout, pred>>
 Expect(k) == CASE k = "tg" -> "nonzero" [] k = "tu" -> "zero_or_none" [] OTHER -> "none"
-Init == /\ f \in Functionals /\ ks \in [1..Len3 -> Kinds]
-        /\ pred = [raises |-> FALSE, grads |-> [i \in 1..Len3 |-> Expect(ks[i])]]
+Init == /\ f \in Functionals /\ ks \in [1..Len3 -> Kinds] /\ layout \in Layouts
+        /\ pred = [raises |-> FALSE, grads |-> [i \in 1..Len3 |-> Expect(ks[i])],
+                   grads2 |-> IF f \in TwoLists /\ layout = "shapes" THEN [i \in 1..Len3 |-> Expect(Rot(ks)[i])] ELSE <<>>]
 Next == UNCHANGED vars
 Spec == Init /\ [][Next]_vars
 NeverRaises == ~pred.raises
-OnlyDifferentiableGetGradients == \A i \in 1..Len3 : (pred.grads[i] = "nonzero") <=> (ks[i] = "tg")
+OnlyDifferentiableGetGradients == /\ \A i \in 1..Len3 : (pred.grads[i] = "nonzero") <=> (ks[i] = "tg")
+                                  /\ \A i \in DOMAIN pred.grads2 : (pred.grads2[i] = "nonzero") <=> (Rot(ks)[i] = "tg")
 =============================================================================
